@@ -32,6 +32,12 @@ def attribute(ch, hist, dm, pl, pf):
     fast_static = exact(ch, hist, dm, 'fast', pf, ('static_select', 'static_domain'))
     if large_ok and fast_static:
         return 'fast-static-conflict-selection'
+    if large_ok:
+        # fast follows the static-selection reference up to a micro step where the shared history store shows (K9 predicate of vf.compare)
+        r = refscxml.Ref(ch, ('static_select', 'static_domain')); r.interpret(hist)
+        if not r.diverged:
+            v2, k2, d2 = c01lib.compare_case(ch, hist, dm, 'fast', pf, r)
+            if v2 == 'deviation' and k2 == 'nested-history-shared-store': return 'nested-history-shared-store'
     return None
 
 
